@@ -98,7 +98,7 @@ func c01(c *wk.Ctx) {
 		}
 	}
 	idx++
-	perType := c.Pick(24, 400)
+	perType := c.Pick(24, 2500)
 	boundary := []int{0, 1, 2, 3, 4, 5, 6, 7, 252, 253, 254, 255, 256, 257, 65535, 65536}
 	for ti, t := range types {
 		var bits []int
